@@ -87,6 +87,11 @@ func (ex *Exec) vsymCall(st *State, fr *Frame, dst ssa.Value, fn *ssa.Function, 
 		base := concStr(args[0], name)
 		nm := st.symName(base)
 		if fix, ok := ex.params["choice:"+nm]; ok {
+			if fix >= int(n.Int()) {
+				// a work-split index beyond this choice's range: an empty job
+				ex.endPath(st, "cut", "split index beyond choice range")
+				return
+			}
 			c := mkBV(64, uint64(fix))
 			st.inputs = append(st.inputs, InputRec{Name: nm, T: c, Kind: "choice"})
 			st.choices = append(st.choices, fmt.Sprintf("%s=%d", nm, fix))
